@@ -23,11 +23,71 @@ RULE = ('event sequences: context objects created (possibly long before use, re-
         'every mode / option combination: batch_norm (training x running statistics both / none / one-sided x weight x bias; function '
         'and BatchNorm1d/2d layer object in train() / eval()), Dropout (train / eval x p in {0, 0.5, 1}), every loss x reduction, each with '
         'every operand flag pattern, inside and outside no_grad. '
+        'Binary operators in every spelling: + - * / ** @ written infix, reflected (Python number on the left), as the augmented statement '
+        '(`r = a; r += b`, -=, *=, /=, **=, @=, also with the number on the left: `total = 0; total += t`), as the function of the package and as '
+        'the explicit special-method call, over every pair of operand states (plain / parameter / computed / computed under no_grad from '
+        'tracked operands / frozen / switched on later) inside and outside (nested) no_grad blocks, the statement repeated on its own '
+        'result (accumulation loop); after each: flags of the result and of both operands, whether the result is a new object, a '
+        'backward from the result and the gradients it leaves on every operand (a tracked leaf under a tracked result must hold one). '
+        'The creation rule through every constructor: Tensor(array) / Tensor(list, dtype=) / synapgrad.tensor / zeros / ones / empty / rand / randn / '
+        'normal / randint / arange / eye / zeros_like / ones_like with requires_grad= either way, nn.Parameter(array) with and without the '
+        'keyword, nn.Parameter(tensor) (= the copy constructor) over tensors in every state, the parameters and buffers of freshly constructed '
+        'Linear / Neuron / Conv1d / Conv2d / BatchNorm1d / BatchNorm2d layers — each over float64 / float32 / int32 / int64 / bool (and complex / '
+        'unsigned / 16-bit) data, inside and outside (nested) no_grad / retain_grads blocks; accept / reject and the flags compared with mkTensor. '
         'Non-trivial: nesting depth >= 2 with a pre-constructed context and at least one op inside no_grad.')
 EXHAUSTIVE = {'quick': False, 'thorough': False}
 ASSUMPTIONS = ['exit by exception is exercised by calling __exit__ with exception info (what the with-statement does)']
 TRUSTED_BASE = ['harness/tprog.py']
 OPS = ['add', 'mul', 'neg', 'sum', 'clone', 'self2', 'reshape']
+
+
+# ---- binary operators in every spelling --------------------------------------------------------------------------------
+BSYM = {'add': '+', 'sub': '-', 'mul': '*', 'div': '/', 'pow': '**', 'matmul': '@'}
+BDUN = {'add': 'add', 'sub': 'sub', 'mul': 'mul', 'div': 'truediv', 'pow': 'pow', 'matmul': 'matmul'}
+REFLECTED = ('radd', 'rsub', 'rmul', 'rdiv', 'rpow')
+# form -> (kind, right operand is a tensor, spellings)
+BFORMS = {'add_tt': ('add', True, ('infix', 'aug', 'fn', 'dunder')), 'mul_tt': ('mul', True, ('infix', 'aug', 'fn', 'dunder')),
+          'matmul_tt': ('matmul', True, ('infix', 'aug', 'fn', 'dunder')), 'sub_tt': ('sub', True, ('infix', 'aug', 'dunder')),
+          'div_tt': ('div', True, ('infix', 'aug', 'dunder')),
+          'add_ts': ('add', False, ('infix', 'aug', 'dunder')), 'mul_ts': ('mul', False, ('infix', 'aug', 'dunder')),
+          'sub_ts': ('sub', False, ('infix', 'aug', 'dunder')), 'div_ts': ('div', False, ('infix', 'aug', 'dunder')),
+          'pow_ts': ('pow', False, ('infix', 'aug', 'fn', 'dunder')),
+          'radd': ('radd', False, ('infix', 'aug', 'dunder')), 'rmul': ('rmul', False, ('infix', 'aug', 'dunder')),
+          'rsub': ('rsub', False, ('infix', 'aug', 'dunder')), 'rdiv': ('rdiv', False, ('infix', 'aug', 'dunder')),
+          'rpow': ('rpow', False, ('infix', 'aug', 'fn', 'dunder'))}
+
+
+def bop_hidden(kind, tt):
+    """tensors an operator creates on its way (scalar operands, -b, b ** -1): nodes of the model, not reachable on the implementation"""
+    if kind in ('pow', 'rpow') or (tt and kind in ('add', 'mul', 'matmul')): return 0
+    if kind == 'sub': return 2 if tt else 1
+    return {'add': 1, 'mul': 1, 'div': 1, 'radd': 1, 'rmul': 1, 'rsub': 3, 'rdiv': 2}[kind]
+
+
+def bop_model(kind, a, b):
+    """the model's line for `t bop <kind> <spelling> <a> <b>` (it has ONE spelling of each operator)"""
+    if b[0] == 'n': b = 's' + str(common.fbits(float(int(b[1:]))))
+    if b[0] == 't' and kind in ('add', 'mul', 'matmul'): return f't op {kind} {a},{b[1:]}'
+    if kind in ('pow', 'rpow'): return f't op {kind} {a} {b[1:]}'
+    return f't sop {kind[1:] if kind in ("radd", "rmul") else kind} {a} {b}'
+
+
+# ---- constructors ------------------------------------------------------------------------------------------------------------
+MK_EXACT = ['Tensor', 'Tensor-dtype', 'tensor', 'zeros', 'ones', 'arange', 'eye', 'zeros_like', 'ones_like', 'Parameter', 'Parameter-kw']   # the data are known
+MK_ROUTES = MK_EXACT + ['empty', 'rand', 'randn', 'normal', 'randint']          # flags only
+LAYER_PARAMS = [('linear', 'weight', (3, 2)), ('linear', 'bias', (3,)), ('neuron', 'weight', (1, 3)), ('neuron', 'bias', (1,)),
+                ('conv1d', 'weight', (2, 1, 3)), ('conv1d', 'bias', (2,)), ('conv2d', 'weight', (2, 1, 2, 3)), ('conv2d', 'bias', (2,)),
+                ('bn1d', 'weight', (3,)), ('bn1d', 'bias', (3,)), ('bn1d', 'running_mean', (3,)), ('bn1d', 'running_var', (3,)),
+                ('bn2d', 'weight', (2,)), ('bn2d', 'bias', (2,)), ('bn2d', 'running_mean', (2,))]
+
+
+def mk_data(route, shape):
+    """what the constructor puts into the tensor (zeros where that is not determined)"""
+    n = int(np.prod(shape)) if shape else 1
+    if route in ('ones', 'ones_like'): return [1.0] * n
+    if route == 'arange': return [float(k) for k in range(n)]
+    if route == 'eye': return [float(i == j) for i in range(shape[0]) for j in range(shape[0])]
+    return [0.0] * n
 
 
 def _flags(x):
@@ -61,7 +121,75 @@ class Exec(tprog.Impl):
             self.ts.append(out)
             if out.grad_fn is not None and out is not x: self.fn_owner[id(out.grad_fn)] = len(self.ts) - 1
             return f't{len(self.ts) - 1}'
+        if t[1] == 'bop':               # t bop <kind> <spelling> <a> t<b> | s<bits> | n<int> : one binary operator in one spelling
+            kind, sp, ia = t[2], t[3], int(t[4])
+            tt = t[5][0] == 't'
+            b = self.ts[int(t[5][1:])] if tt else int(t[5][1:]) if t[5][0] == 'n' else common.bitsf(t[5][1:])
+            r = self.bop(kind, sp, self.ts[ia], b)
+            if not isinstance(r, sg.Tensor): raise TypeError(type(r))
+            self.ts += [None] * bop_hidden(kind, tt)
+            self.ts.append(r)
+            k = len(self.ts) - 1
+            if r.grad_fn is not None and id(r.grad_fn) not in self.fn_owner: self.fn_owner[id(r.grad_fn)] = k
+            same = [j for j in [ia] + ([int(t[5][1:])] if tt else []) if self.ts[j] is r]      # the statement handed back an operand itself
+            return f't{k}' + (f' is-operand-t{same[0]}' if same else '')
+        if t[1] == 'mk':                # t mk <route> <dtype> <shape> <requires_grad> <data> : one constructor call
+            self.ts.append(self.mk(t[2], t[3], tuple(common.parse_ints(t[4])), bool(int(t[5])), common.parse_floats(t[6])))
+            return f't{len(self.ts) - 1}'
+        if t[1] == 'wrap':              # t wrap <i> -|0|1 : nn.Parameter(tensor[, requires_grad=...]) — Tensor's copy constructor
+            x = self.ts[int(t[2])]
+            self.ts.append(self.nn.Parameter(x) if t[3] == '-' else self.nn.Parameter(x, requires_grad=bool(int(t[3]))))
+            return f't{len(self.ts) - 1}'
+        if t[1] == 'lp':                # t lp <layer> <attribute> <shape> : a parameter / buffer of a freshly constructed layer
+            sh = tuple(common.parse_ints(t[4]))
+            nn = self.nn
+            if t[2] == 'linear': m = nn.Linear(sh[1] if len(sh) == 2 else 2, sh[0])
+            elif t[2] == 'neuron': m = nn.Neuron(sh[1] if len(sh) == 2 else 2)
+            elif t[2] == 'conv1d': m = nn.Conv1d(sh[1], sh[0], sh[2]) if len(sh) == 3 else nn.Conv1d(1, sh[0], 2)
+            elif t[2] == 'conv2d': m = nn.Conv2d(sh[1], sh[0], (sh[2], sh[3])) if len(sh) == 4 else nn.Conv2d(1, sh[0], 2)
+            else: m = (nn.BatchNorm1d if t[2] == 'bn1d' else nn.BatchNorm2d)(sh[0])
+            x = getattr(m, t[3])
+            if tuple(x.shape) != sh or (t[3] in ('weight', 'bias') and x not in m.parameters()): raise ValueError(x.shape)
+            self.ts.append(x)
+            return f't{len(self.ts) - 1}'
         return super().run(line)
+
+    def bop(self, kind, sp, a, b):
+        import operator
+        sg = self.sg
+        refl = kind in REFLECTED
+        base = kind[1:] if refl else kind
+        if sp == 'fn':                  # the package's function (tensor operands; a Python exponent / base)
+            return getattr(sg, kind)(a, b)
+        if sp == 'infix':
+            f = getattr(operator, BDUN[base])
+            return f(b, a) if refl else f(a, b)
+        if sp == 'aug':                 # the STATEMENT `r = <left>; r <op>= <right>` (the left operand of a reflected form is the number)
+            ns = {'r': b if refl else a, 'x': a if refl else b}
+            exec(f'r {BSYM[base]}= x', {}, ns)
+            return ns['r']
+        if sp == 'dunder':              # the explicit special-method call
+            return getattr(a, f'__{"r" if refl else ""}{BDUN[base]}__')(b)
+        raise KeyError(sp)
+
+    def mk(self, route, dtn, shape, rg, data):
+        sg = self.sg
+        dt = tprog.DT[dtn]
+        vals = np.array(data, dtype=np.float64).reshape(shape)
+        if route == 'Tensor': return sg.Tensor(vals.astype(dt), requires_grad=rg)
+        if route == 'Tensor-dtype': return sg.Tensor(vals.tolist(), dtype=dt, requires_grad=rg)
+        if route == 'tensor': return sg.tensor(vals.tolist(), requires_grad=rg, dtype=dt)
+        if route in ('zeros', 'ones', 'empty', 'rand', 'randn'):
+            f = getattr(sg, route)
+            return f(*shape, dtype=dt, requires_grad=rg) if len(shape) != 1 or route.startswith('rand') else f(shape, dtype=dt, requires_grad=rg)
+        if route == 'normal': return sg.normal(0.0, 1.0, *shape, dtype=dt, requires_grad=rg)
+        if route == 'randint': return sg.randint(0, 5, shape, dtype=None if dtn == 'i32' else dt, requires_grad=rg)
+        if route == 'arange': return sg.arange(shape[0], dtype=dt, requires_grad=rg)
+        if route == 'eye': return sg.eye(shape[0], dtype=dt, requires_grad=rg)
+        if route in ('zeros_like', 'ones_like'): return getattr(sg, route)(sg.Tensor(np.full(shape, 3).astype(dt)), requires_grad=rg)
+        if route == 'Parameter': return self.nn.Parameter(vals.astype(dt))                     # (no flag: the line says requires_grad 0)
+        if route == 'Parameter-kw': return self.nn.Parameter(vals.astype(dt), requires_grad=rg)
+        raise KeyError(route)
 
     def call_nn(self, name, x, args):
         """batch_norm: half of the calls go through a BatchNorm1d / BatchNorm2d layer OBJECT put into train() / eval() mode
@@ -93,6 +221,13 @@ def to_model(line):
         t[2] = 'i64'
         return ' '.join(t)
     if len(t) > 2 and t[1] == 'fromdata': return ' '.join(t[:4])
+    if len(t) > 2 and t[1] == 'bop': return bop_model(t[2], t[4], t[5])
+    if len(t) > 2 and t[1] == 'mk':            # every constructor is the leaf-creation rule over its array
+        return f"t leaf {t[3] if t[3] in ('f32', 'f64', 'i8', 'i32', 'i64') else 'i64'} {t[4]} {t[5]} {t[6]}"
+    if len(t) > 2 and t[1] == 'wrap': return f't copy {t[2]}'      # Parameter(tensor) is Tensor(tensor): every attribute of the source
+    if len(t) > 2 and t[1] == 'lp':            # layers build their parameters with requires_grad=True, their buffers without
+        sh = common.parse_ints(t[4])
+        return gen_dag.leaf_line(sh, [0.0] * int(np.prod(sh)), t[3] in ('weight', 'bias'), 'f32')
     if len(t) > 2 and t[1] == 'dropout':
         return f't sop mul {t[2]} s{common.fbits(1.0)}' if int(t[4]) else f't copy {t[2]}'
     return line
@@ -109,6 +244,8 @@ def gen_seq(rng, tier):
     ints = set()
     tainted = set()  # copy-constructed tensors and everything computed from them: they share buffers / backward functions with
                      # their source, which the model (one node per tensor) does not express — flags only, never differentiated
+    hidden = set()   # tensors an operator statement makes on its way (nodes of the model only): never named by a later line
+    vis = lambda: [k for k in range(len(P.tshape)) if k not in hidden]
 
     def q():
         nt = len(P.tshape)
@@ -132,15 +269,25 @@ def gen_seq(rng, tier):
             dt = rng.pick(['f64', 'f64', 'f64', 'f64', 'i64', 'c128', 'c64', 'u8', 'i16', 'bool'])   # float32 rounding of gradients is C10's subject
             rg = rng.chance(.6)
             data = [float(rng.randint(-3, 3)) for _ in range(int(np.prod(sh)) if sh else 1)]
-            lines.append(gen_dag.leaf_line(sh, data, rg, dt))
+            if rng.chance(.4):        # ... through one of the other constructors (factory functions, nn.Parameter)
+                route = rng.pick(MK_EXACT)
+                if route == 'arange': sh = (2,)
+                if route == 'eye': sh = (2, 2)
+                if route == 'Parameter': rg = False
+                if route not in ('Tensor', 'Tensor-dtype', 'tensor', 'Parameter', 'Parameter-kw'): data = mk_data(route, sh)
+                elif dt != 'f64': data = [abs(v) for v in data]
+                lines.append(f't mk {route} {dt} {show_ints(sh)} {int(rg)} {show_floats(data)}')
+                stats['ctor'] = stats.get('ctor', 0) + 1
+            else:
+                lines.append(gen_dag.leaf_line(sh, data, rg, dt))
             # a rejected creation (int tensor requiring grad) creates nothing
             if not (rg and dt != 'f64' and not any(k == 'ng' for _, k in active)):
                 tid = P.add_leaf(sh, data, rg, dt)
                 if dt != 'f64': ints.add(tid)
         elif r < 0.28:
             # a tensor made from a tensor without an op — whatever state the source is in by now
-            src = rng.randrange(nt)
-            d = rng.pick(['detach', 'detach', 'copy', 'fromdata', 'fromdata', 'gradt', 'like'])
+            src = rng.pick(vis())
+            d = rng.pick(['detach', 'detach', 'copy', 'fromdata', 'fromdata', 'gradt', 'like', 'wrap'])
             stats['derived'] = stats.get('derived', 0) + 1
             if d == 'gradt':
                 lines.append(f't gradt {src}')
@@ -152,13 +299,37 @@ def gen_seq(rng, tier):
                     return q()          # refused: only floating-point tensors can require grad
             elif d == 'like':
                 lines.append(f't ctor like {rng.randint(0, 1)} {src}')
+            elif d == 'wrap':
+                lines.append(f't wrap {src} {rng.pick(["-", "-", "0", "1"])}')
             else:
                 lines.append(f't {d} {src}')
             tid = P.add_leaf(P.tshape[src], [], False)
             if src in ints: ints.add(tid)
-            if d == 'copy': tainted.add(tid)
+            if d in ('copy', 'wrap'): tainted.add(tid)
+        elif r < 0.36:
+            # one binary operator in one spelling (infix / reflected / augmented statement / function / special method) over operands
+            # in whatever state they are by now: an untracked accumulator on the left of a tracked operand included
+            flo = [t for t in vis() if t not in ints]
+            if not flo: return
+            form = rng.pick(['add_tt', 'add_tt', 'mul_tt', 'sub_tt', 'add_ts', 'mul_ts', 'sub_ts', 'div_ts', 'radd', 'rmul', 'rsub'])
+            kind, tt, sps = BFORMS[form]
+            a = rng.pick(flo)
+            if tt:
+                b = rng.pick([x for x in flo if gen_dag.bshape(P.tshape[a], P.tshape[x]) is not None])
+                out = gen_dag.bshape(P.tshape[a], P.tshape[b])
+                btok = f't{b}'
+            else:
+                b, out = None, P.tshape[a]
+                btok = rng.pick([f's{common.fbits(rng.pick([2.0, 0.5, -1.5]))}', f'n{rng.pick([2, 3, -1])}'])
+            lines.append(f't bop {kind} {rng.pick(sps)} {a} {btok}')
+            stats['bop'] = stats.get('bop', 0) + 1
+            if any(k == 'ng' for _, k in active): stats['op_in_ng'] = True
+            nh = bop_hidden(kind, tt)
+            new = [P.add_leaf(P.tshape[b] if tt else (), [], False) for _ in range(nh)] + [P.add_leaf(out, [], False)]
+            hidden.update(new[:-1])
+            if a in tainted or b in tainted: tainted.update(new)
         elif r < 0.50:
-            flo = [t for t in range(nt) if t not in ints]
+            flo = [t for t in vis() if t not in ints]
             if not flo: return
             before = len(P.nodes)
             gen_dag.gen_op(rng, P, OPS, flo)   # integer tensors only exercise the creation / setter rules
@@ -168,14 +339,14 @@ def gen_seq(rng, tier):
                 if any(k == 'ng' for _, k in active): stats['op_in_ng'] = True
                 if any(i in tainted for i in nd['ins']): tainted.update(nd['outs'])
         elif r < 0.57:
-            lines.append(f't setrg {rng.randrange(nt)} {rng.randint(0, 1)}')
+            lines.append(f't setrg {rng.pick(vis())} {rng.randint(0, 1)}')
         elif r < 0.60:
-            flo = [t for t in range(nt) if t not in ints]
+            flo = [t for t in vis() if t not in ints]
             if flo: lines.append(f't zero {rng.pick(flo)}')       # the user resets a buffer (any floating-point tensor)
         elif r < 0.64:
-            lines.append(f't retain {rng.randrange(nt)}')
+            lines.append(f't retain {rng.pick(vis())}')
         elif r < 0.73:
-            ok = [t for t in range(nt) if t not in tainted]
+            ok = [t for t in vis() if t not in tainted]
             if not ok: return
             t = rng.pick(ok)
             lines.append(f"t bw {t} {show_ints(P.tshape[t])} {show_floats(gen_dag.rand_data(rng, P.tshape[t]))}")
@@ -365,6 +536,108 @@ def dropout_mode_case(rng, p, train, rg, ng):
     return lines, {'maxdepth': 1, 'pre': False, 'op_in_ng': ng, 'mode': f'Dropout p={p} train={int(train)}'}
 
 
+OPERAND_STATES = ['plain', 'parameter', 'computed', 'computed under no_grad from a parameter', 'frozen parameter', 'plain, switched on later']
+CTX_LAYOUTS = [(), ('ng',), ('rg', 'ng'), ('ng', 'rg'), ('ng', 'ng'), ('rg',)]      # blocks entered around the statements, outermost first
+
+
+def _enter(lines, layout, nctx):
+    for j, k in enumerate(layout): lines += [f't ctx new {k}', f't ctx enter {nctx + j}']
+    return nctx + len(layout)
+
+
+def _exit(lines, layout, nctx, rng):
+    for j in reversed(range(len(layout))): lines.append(f't ctx {"exitexc" if rng.chance(.2) else "exit"} {nctx - len(layout) + j}')
+
+
+def binop_case(rng, form, sp, layout, pairs):
+    """ONE binary operator in ONE spelling over operand pairs in the given states, inside the given blocks: `r = a <op> b`, the
+    same statement again on its own result (the accumulation loop `total += w * x`), the flags of every result and — afterwards,
+    outside the blocks — of every operand, a backward from every final result and the gradients it leaves"""
+    kind, tt, _ = BFORMS[form]
+    sh = (2, 2) if kind == 'matmul' else rng.pick([(2,), (3,), (2, 2), ()])
+    n = int(np.prod(sh)) if sh else 1
+    lines, nt, nctx = [], 0, 0
+    V = lambda: [rng.pick([0.5, 1.0, 1.5, 2.0, 3.0]) for _ in range(n)]       # (positive: powers and quotients stay finite)
+    def operand(state):
+        nonlocal nt, nctx
+        k = OPERAND_STATES.index(state)
+        lines.append(gen_dag.leaf_line(sh, V(), k in (1, 2, 3, 4))); nt += 1
+        if k == 2: lines.append(f't op mul {nt - 1},{nt - 1}'); nt += 1
+        if k == 3:
+            lines.extend([f't ctx new ng', f't ctx enter {nctx}', f't op mul {nt - 1},{nt - 1}', f't ctx exit {nctx}']); nt += 1; nctx += 1
+        if k == 4: lines.append(f't setrg {nt - 1} 0')
+        if k == 5: lines.append(f't setrg {nt - 1} 1')
+        return nt - 1
+    A = {st: operand(st) for st in sorted({p_[0] for p_ in pairs})}
+    B = {st: operand(st) for st in sorted({p_[1] for p_ in pairs})} if tt else {}
+    nop = nt
+    def scalar():
+        if kind in ('pow',): return f's{common.fbits(rng.pick([2.0, 0.5, -1.0, 3.0]))}'
+        if kind == 'rpow': return f's{common.fbits(rng.pick([2.0, 0.5, 1.5]))}'
+        return rng.pick([f's{common.fbits(rng.pick([2.0, 0.5, -1.5, 3.0]))}', f'n{rng.pick([2, 3, -2])}'])
+    nctx = _enter(lines, layout, nctx)
+    finals = []
+    for sa, sb in pairs:
+        r = A[sa]
+        for rep_ in range(2):
+            btok = f't{B[sb]}' if tt else scalar()
+            lines.append(f't bop {kind} {sp} {r} {btok}')
+            nt += bop_hidden(kind, tt) + 1
+            r = nt - 1
+            lines.append(f't flags {r}')
+        finals.append(r)
+    _exit(lines, layout, nctx, rng)
+    lines.append('t modes')
+    lines += [f't flags {k}' for k in range(nop)]
+    for r in finals:
+        lines.append(f"t bw {r} {show_ints(sh)} {show_floats(gen_dag.rand_data(rng, sh))}")
+    lines += [f't grad {k}' for k in range(nop)] + [f't flags {r}' for r in finals]
+    return lines, {'maxdepth': len(layout), 'pre': False, 'op_in_ng': 'ng' in layout,
+                   'binop': f"{form} {sp}{' inside ' + '>'.join(layout) if layout else ''}", 'pairs': len(pairs)}
+
+
+def ctor_case(rng, route, layout):
+    """ONE constructor over every dtype class and either requested flag, inside the given blocks: accept / reject and the flags; then
+    the wrapper nn.Parameter over the new tensor, the setter on it, an op on it"""
+    lines, nt = [], 0
+    nctx = _enter(lines, layout, 0)
+    grad_on = 'ng' not in layout
+    made = []
+    for dt in ['f64', 'f32', 'i32', 'i64', 'bool', rng.pick(['c64', 'c128', 'u8', 'i16'])]:
+        for rg in (0, 1):
+            if route == 'Parameter' and rg: continue
+            sh = (rng.randint(1, 3),) if route in ('arange',) else (2, 2) if route == 'eye' else rng.pick([(2,), (1, 2)] + ([()] if route in ('Tensor', 'Tensor-dtype', 'tensor', 'zeros', 'ones', 'empty', 'Parameter', 'Parameter-kw', 'zeros_like', 'ones_like') else []))
+            n = int(np.prod(sh)) if sh else 1
+            data = mk_data(route, sh) if route not in ('Tensor', 'Tensor-dtype', 'tensor', 'Parameter', 'Parameter-kw') else [float(rng.randint(0, 3)) for _ in range(n)]
+            lines.append(f't mk {route} {dt} {show_ints(sh)} {rg} {show_floats(data)}')
+            isf = dt in ('f64', 'f32')
+            if rg and not isf and grad_on: continue          # refused: only floating-point tensors can require grad
+            k = nt; nt += 1
+            lines.append(f't flags {k}')
+            lines += [f't wrap {k} {rng.pick(["-", "-", "0", "1"])}', f't flags {nt}']; nt += 1
+            if rng.chance(.5): lines += [f't setrg {k} {rng.randint(0, 1)}', f't flags {k}']
+            if isf: lines += [f't op mul {k},{k}', f't flags {nt}']; nt += 1
+            made.append((k, isf))
+    _exit(lines, layout, nctx, rng)
+    lines.append('t modes')
+    for k, isf in made:
+        lines.append(f't flags {k}')
+        if isf and rng.chance(.5): lines += [f't op mul {k},{k}', f't flags {nt}']; nt += 1
+    return lines, {'maxdepth': len(layout), 'pre': False, 'op_in_ng': 'ng' in layout, 'ctor_route': f"{route}{' inside ' + '>'.join(layout) if layout else ''}"}
+
+
+def layer_case(rng, layout):
+    """the parameters and buffers of freshly constructed layers, built inside the given blocks"""
+    lines, nt = [], 0
+    nctx = _enter(lines, layout, 0)
+    for layer, attr, sh in LAYER_PARAMS:
+        lines += [f't lp {layer} {attr} {show_ints(sh)}', f't flags {nt}', f't op mul {nt},{nt}', f't flags {nt + 1}']; nt += 2
+    _exit(lines, layout, nctx, rng)
+    lines.append('t modes')
+    lines += [f't flags {k}' for k in range(nt)]
+    return lines, {'maxdepth': len(layout), 'pre': False, 'op_in_ng': 'ng' in layout, 'ctor_route': f"layer constructors{' inside ' + '>'.join(layout) if layout else ''}"}
+
+
 LOSSES = ['mse_loss', 'nll_loss', 'binary_cross_entropy', 'binary_cross_entropy_with_logits', 'cross_entropy']
 
 
@@ -454,6 +727,22 @@ def cases(rng, tier):
         for name in LOSSES:
             for red in ('mean', 'sum', 'none'):
                 out.append(mk(*loss_mode_case(rng, name, red), 'nn mode'))
+    # binary operators: every form x spelling outside any block over ALL pairs of operand states, and once more inside a drawn
+    # arrangement of blocks (thorough: every arrangement)
+    allp = [(a, b) for a in OPERAND_STATES for b in OPERAND_STATES]
+    for form, (kind, tt, sps) in list(BFORMS.items()) * (1 if tier == 'quick' else 3):
+        pairs = allp if tt else [(a, OPERAND_STATES[0]) for a in OPERAND_STATES]
+        for sp in sps:
+            # (quick: outside, one drawn arrangement that contains a no_grad block, and retain_grads alone now and then)
+            for layout in ([()] + ([rng.pick(CTX_LAYOUTS[1:5])] + ([('rg',)] if rng.chance(.25) else []) if tier == 'quick' else CTX_LAYOUTS[1:])):
+                sub = pairs if not layout or tier != 'quick' or not tt else rng.sample(pairs, 24)
+                out.append(mk(*binop_case(rng, form, sp, layout, sub), 'binary operator'))
+    # constructors: every route x dtype class x requested flag, outside and inside blocks
+    for route in MK_ROUTES:
+        for layout in (CTX_LAYOUTS if tier != 'quick' else [(), ('ng',), rng.pick(CTX_LAYOUTS[2:])]):
+            out.append(mk(*ctor_case(rng, route, layout), 'constructor'))
+    for layout in CTX_LAYOUTS:
+        out.append(mk(*layer_case(rng, layout), 'constructor'))
     for _ in range(3 if tier == 'quick' else 16):
         lines, stats = fresh_seq(rng)
         out.append({'lines': lines, 'stats': stats, 'fresh': True, 'desc': 'fresh interpreter: ' + ' ; '.join(l for l in lines if not l.startswith(('t flags', 't modes')))[:900]})
@@ -536,10 +825,19 @@ def distribution(cases):
         if st.get('state'):       # life-cycle state in which every derivation (detach, copy constructor, .data round trip, clone, .grad) is applied to every tensor
             k = f"derivations x tensors in state: {st['state']}{' (inside no_grad)' if st['op_in_ng'] else ''}"
             d[k] = d.get(k, 0) + 1
+        if st.get('binop'):       # one binary operator in one spelling: statements (operand-state pairs x 2) in that program
+            k = f"binary operator {st['binop'].split(' inside ')[0]}: statements outside blocks / inside no_grad / inside retain_grads only"
+            v = d.setdefault(k, [0, 0, 0])
+            v[1 if st['op_in_ng'] else 2 if st['maxdepth'] else 0] += 2 * st['pairs']
+        if st.get('ctor_route'):
+            k = f"constructor route: {st['ctor_route']}"
+            d[k] = d.get(k, 0) + 1
         if st.get('mode'):        # nn op under one mode / option combination
             k = f"nn mode: {st['mode']}{' (inside no_grad)' if st['op_in_ng'] else ''}"
             d[k] = d.get(k, 0) + 1
     d['tensor-from-tensor derivations inside random event sequences'] = sum(c['stats'].get('derived', 0) for c in cases)
+    d['operator statements (drawn form x spelling) inside random event sequences'] = sum(c['stats'].get('bop', 0) for c in cases if c.get('kind') != 'logic')
+    d['constructor routes other than Tensor(array) inside random event sequences'] = sum(c['stats'].get('ctor', 0) for c in cases if c.get('kind') != 'logic')
     return d
 
 
@@ -557,21 +855,53 @@ def oracle(c):
     isfloat = {}
     bad_bw = set(c.get('bad_bw') or [])
     plain = 'rg=0 leaf=1 fn=0 grad=0 children=0'
+    deps = {}         # result of a binary operator -> the leaves it was tracked through when it was made
+    owed = {}         # leaves a successful backward call has to leave a gradient on -> the root of that call
+    group = {}        # names of ONE object (an operator statement that hands back its operand): they share every attribute
+    names = lambda k: group.get(k, [k])
     for li, (l, o) in enumerate(zip(c['lines'], io)):
         t = l.split(' ')
         def fail(cls, what):
             return {'key': {'cls': cls}, 'case': {'lines': c['lines'][:li + 1], 'fresh': bool(c.get('fresh')), 'bad_bw': sorted(bad_bw)}, 'what': what}
-        def new(rg, fl=True, like=None):
+        def new(rg, fl=True, like=None, dep=None):
             nonlocal ntens
             rg_of[ntens] = rg
             isfloat[ntens] = fl
+            deps[ntens] = {ntens} if dep is None and like is None else (dep or set())      # a leaf stands for itself; nothing is claimed about copies
             if rg: ever.add(ntens)
             if like is not None:
                 if like in ever: ever.add(ntens)
                 assigned.add(ntens)
             ntens += 1
             return ntens - 1
-        if t[1] == 'ctx' and t[2] == 'enter':
+        if t[1] in ('mk', 'lp'):          # a constructor call: the leaf-creation rule
+            dtn = t[3] if t[1] == 'mk' else 'f32'
+            req = bool(int(t[5])) if t[1] == 'mk' else t[3] in ('weight', 'bias')
+            what = f'{t[2]}(..., dtype={dtn}, requires_grad={req})' if t[1] == 'mk' else f'{t[2]} layer .{t[3]}'
+            if o != 'rejected':
+                k = new(req and grad, dtn in ('f64', 'f32'))
+                if rg_of[k] and not isfloat[k]:
+                    return fail('float-only', f'{what} made a tensor that is not floating point require grad')
+            elif not (dtn not in ('f64', 'f32') and req and grad):
+                return fail('leaf-rejected', f'{what} raised')
+        elif t[1] == 'wrap':
+            if o == 'rejected': return fail('copy-raised', f'nn.Parameter(t{t[2]}) raised')
+            src = int(t[2])
+            new(rg_of.get(src, False), isfloat.get(src, True), like=src)        # Parameter(tensor) is the copy constructor
+        elif t[1] == 'bop':
+            if o == 'rejected': return fail('operator-raised', f'{l} raised')
+            ins = [int(t[4])] + ([int(t[5][1:])] if t[5][0] == 't' else [])
+            want = grad and any(rg_of.get(i, False) for i in ins)
+            for _ in range(bop_hidden(t[2], t[5][0] == 't')): new(False, dep=set())
+            k = new(want, dep=set().union(*[deps.get(i, set()) for i in ins if rg_of.get(i, False)]) if want else set())
+            if ' is-operand-t' in o:          # the result IS the operand (updated in place): one object under two names, and the rule speaks about it as the result
+                src = int(o.split(' is-operand-t')[1])
+                g = names(src) + [k]
+                for j in g:
+                    group[j] = g; rg_of[j] = want; deps[j] = deps[k]; isfloat[j] = isfloat.get(src, True)
+                if any(j in ever for j in g): ever.update(g)
+                if any(j in assigned for j in g): assigned.update(g)
+        elif t[1] == 'ctx' and t[2] == 'enter':
             kind = None
             # kind is known from the creation line
             k = int(t[3])
@@ -597,12 +927,13 @@ def oracle(c):
         elif t[1] == 'op' and o != 'rejected':
             ins = common.parse_ints(t[3])
             want = grad and any(rg_of.get(i, False) for i in ins)
+            dep = set().union(*[deps.get(i, set()) for i in ins if rg_of.get(i, False)]) if want else set()
             for _ in o.split(','):
-                new(want)
+                new(want, dep=dep)
         elif t[1] == 'loss' and o != 'rejected':
             want = grad and (rg_of.get(int(t[4]), False) or rg_of.get(int(t[5]), False))
-            new(want)
-            if t[3] != 'none': new(want)          # the reduction is a second op on the unreduced loss
+            new(want, dep=set())
+            if t[3] != 'none': new(want, dep=set())          # the reduction is a second op on the unreduced loss
         elif t[1] == 'detach':
             if o == 'rejected': return fail('detach-raised', f'detach() of t{t[2]} raised')
             new(False, isfloat.get(int(t[2]), True))
@@ -628,21 +959,24 @@ def oracle(c):
             if o == 'rejected': return fail('dropout-raised', 'Dropout forward raised')
             src = int(t[2])
             if int(t[4]):
-                new(False); new(grad and rg_of.get(src, False))       # mask, product
+                new(False); new(grad and rg_of.get(src, False), dep=set())       # mask, product
             else:
                 new(rg_of.get(src, False), like=src)                  # eval mode hands back its operand
         elif t[1] == 'zero' and o == 'ok':
-            assigned.add(int(t[2]))
+            assigned.update(names(int(t[2])))
         elif t[1] == 'setrg' and o == 'ok':
-            rg_of[int(t[2])] = bool(int(t[3]))
-            if rg_of[int(t[2])]: ever.add(int(t[2]))
+            for j in names(int(t[2])):
+                rg_of[j] = bool(int(t[3]))
+                if rg_of[j]: ever.add(j)
         elif t[1] == 'flags':
             k = int(t[2])
             if '=' not in o: continue             # hidden / no such tensor
             f = dict(kv.split('=') for kv in o.split(' '))
+            if f['rg'] == '1' and not isfloat.get(k, True):
+                return fail('float-only', f't{k} is not floating point and requires grad')
             if bool(int(f['rg'])) != rg_of.get(k, False):
                 return fail('requires_grad', f't{k}.requires_grad is {f["rg"]}, the rule (mode and any operand) gives {int(rg_of.get(k, False))}')
-            if rg_of.get(k, False): ever.add(k)
+            if rg_of.get(k, False): ever.update(names(k))
             if f['rg'] == '0' and (f['fn'] == '1' or (f['grad'] == '1' and k not in ever and k not in assigned) or f['children'] != '0'):
                 return fail('no-history', f't{k} does not require grad but has {o}')
         elif t[1] == 'bw':
@@ -651,6 +985,13 @@ def oracle(c):
                 if o != 'rejected': return fail('backward-accept', f'backward on t{k} accepted a gradient of another shape')
             elif (o == 'rejected') != (not rg_of.get(k, False)):
                 return fail('backward-accept', f'backward on t{k} (requires_grad={rg_of.get(k)}) answered {o[:20]}')
+            elif o != 'rejected':
+                for j in deps.get(k, ()):
+                    if rg_of.get(j, False): owed[j] = k
+        elif t[1] == 'grad':
+            k = int(t[2])
+            if k in owed and o == '-':
+                return fail('unreached', f'backward from t{owed[k]} left no gradient on the leaf t{k}, which requires grad and is an operand (through tracked results) of t{owed[k]}')
     return None
 
 
